@@ -85,11 +85,21 @@
   corresponding item with its type; `list_items_named_or_empty_list`: every item has a non-empty name except for the
   empty list (the phantom parameter, known finding F17 — proved to be the only place it occurs); `more_values_advances`.
 
+  REJECTED and SUSPENDED texts (`Sipsp.Proofs.ParamVerdicts`, every buffer, offset and option word, new object):
+  `tokparam_verdicts(_desc)` — the only verdicts are OK, EOH, MoreValues, MoreBytes, BadChar; `tokparam_badChar_iff`
+  (sound + complete): BadChar at `p` ⇔ the text before `p` is the beginning of a parameter that put the automaton in a
+  state whose explicit reject set contains the byte at `p` (or a bad byte inside quotes / a line end after a
+  back-slash); `tokparam_badChar_prefix_extends`, `tokparam_badChar_local`: the text before `p` IS a proper prefix of an
+  accepted parameter and NO buffer agreeing up to and including `p` is accepted — the error offset is that of the first
+  byte that cannot continue, never an innocent one; `tokparam_trichotomy`: accepted / MoreBytes / BadChar, mutually
+  exclusive; `tokparam_moreBytes_extends`, `tokparam_moreBytes_prefixes`: a suspended text can be completed and every
+  shorter buffer is suspended too; the list wrappers (`uriParamsLoop_stop_iff`, `parseAllURIParams_badChar_iff`,
+  `*_verdicts`, `*_outcome`, same for headers): an error verdict iff one of the items has it, at that item's offset,
+  the items before it counted and stored; stability of every rejection under appended bytes and every chunk schedule
+  (`*_badChar_append`, `*_badChar_any_schedule`, `uriparams_any_schedule`); `pv_skipQuoted`: every outcome of SkipQuoted.
   NOT proved here:
-  * the composition above with `POptInputEndF` set on the last call;
-    without `POptInputEndF` a parameter that runs into the end of the buffer gives `MoreBytes` (resumption: C02);
-  * completeness of the rejection theorems (e.g. a bad byte after `name LWS`, after a separator (step lemma
-    `tpStep_fNxt_bad` only), inside a quoted string, a token after `name LWS` without `POptTokSpTermF`); errors inside the list wrappers (only successful lists are treated);
+  * the object (not only offset and verdict) returned with BadChar / MoreBytes; calls on objects that are not new;
+  * the continuation theorem with the end-of-input option; an equivalence (not only an implication) for MoreBytes;
   * quoted value directly followed by a token with `POptTokSpTermF` (no white space in between).
   Behaviour worth knowing (all of it is also the behaviour of the Go source; concrete inputs in the report):
   * REPAIRED in the source and the model: the terminator directly after a separator (an empty last item) used to
@@ -109,6 +119,7 @@
 import Sipsp.Proofs.ParamSpec
 import Sipsp.Proofs.ShiftParams
 import Sipsp.Proofs.ParamSound
+import Sipsp.Proofs.ParamVerdicts
 
 namespace Sipsp.C17
 open Sipsp
@@ -655,5 +666,133 @@ theorem urihdrs_ok_iff : type_of% @Sipsp.parseAllURIHdrs_ok_iff := @Sipsp.parseA
 theorem list_items_named_or_empty_list : type_of% @Sipsp.PSList.ps_named_or_empty := @Sipsp.PSList.ps_named_or_empty
 
 theorem more_values_advances : type_of% @Sipsp.PSParam.ps_more_range := @Sipsp.PSParam.ps_more_range
+
+/-! ### which verdict a rejected / suspended text gets: reject sets, error position = the first byte that cannot continue, trichotomy, list wrappers, stability (proved in `Sipsp.Proofs.ParamVerdicts`) -/
+
+/-- [EXPORT C17] **every outcome of `SkipQuoted`**: `OK` after the closing quote of a well-formed body; `BadChar` AT a byte that may
+    not stand unescaped (CR, LF, DEL, control bytes) or at a CR / LF that follows a backslash; `MoreBytes` at the end
+    of the buffer or at a backslash that is the last byte — always after plain bytes and complete escape pairs -/
+theorem pv_skipQuoted : type_of% @Sipsp.pv_skipQuoted := @Sipsp.pv_skipQuoted
+
+/-- [EXPORT C17] (1) **the complete list of verdicts of ParseTokenParam on a new object, every buffer, offset and option word**:
+    `OK`, `EOH`, `MoreValues`, `MoreBytes`, `BadChar` and nothing else; `MoreBytes` comes with `PVMore` and `BadChar`
+    with `PVBad` at the returned offset -/
+theorem tokparam_verdicts_desc : type_of% @Sipsp.tokparam_verdicts_desc := @Sipsp.tokparam_verdicts_desc
+
+/-- [EXPORT C17] (1) the verdict list alone -/
+theorem tokparam_verdicts : type_of% @Sipsp.tokparam_verdicts := @Sipsp.tokparam_verdicts
+
+/-- [EXPORT C17] (1) **a rejection points at a rejectable byte**: `BadChar` at `p` ⇒ the text `[o, p)` is the beginning of a
+    parameter and the byte at `p` is one of those rejected in the state reached (`PVBad`) -/
+theorem tokparam_badChar_sound : type_of% @Sipsp.tokparam_badChar_sound := @Sipsp.tokparam_badChar_sound
+
+/-- [EXPORT C17] (2) `MoreBytes` at `r` ⇒ the text `[o, r)` is the beginning of a parameter and the rest of the buffer is unfinished
+    white space or an open quoted string (`PVMore`) -/
+theorem tokparam_moreBytes_sound : type_of% @Sipsp.tokparam_moreBytes_sound := @Sipsp.tokparam_moreBytes_sound
+
+/-- [EXPORT C17] (1) **completeness of the description**: every text of the shape `PVBad … p` is rejected with `BadChar` at `p` -/
+theorem tokparam_badChar_complete : type_of% @Sipsp.tokparam_badChar_complete := @Sipsp.tokparam_badChar_complete
+
+/-- [EXPORT C17] (1) **`BadChar` at `p`, exactly**: for every buffer, offset and option word, ParseTokenParam on a new object returns
+    `BadChar` with offset `p` IFF the text `[o, p)` is the beginning of a parameter (`PVAt` / an open quoted string) and
+    the byte at `p` belongs to the explicit reject set of the state reached (`PVRej`, `PVQBad`, CR / LF after a
+    backslash): the error offset always points at the first byte that cannot continue -/
+theorem tokparam_badChar_iff : type_of% @Sipsp.tokparam_badChar_iff := @Sipsp.tokparam_badChar_iff
+
+/-- [EXPORT C17] (2) **trichotomy**: for every buffer within the 65,535-byte limit, every offset and every option word, a call on a new
+    object ends in exactly one of three ways (they are told apart by the verdict):
+    * accepted — `OK` / `MoreValues` / `EOH`, and then the text is a parameter of the grammar `PSParam` of
+      `ParamSound`, which fixes offset, verdict and the whole object;
+    * suspended — `MoreBytes` at `r`, and then `[o, r)` is the beginning of a parameter and the rest of the buffer is
+      white space cut by the end of the buffer or an open quoted string (`PVMore`);
+    * rejected — `BadChar` at `p`, and then `[o, p)` is the beginning of a parameter and the byte at `p` belongs to the
+      reject set of the state reached (`PVBad`; by `tokparam_badChar_iff` this is an equivalence). -/
+theorem tokparam_trichotomy : type_of% @Sipsp.tokparam_trichotomy := @Sipsp.tokparam_trichotomy
+
+/-- [EXPORT C17] (2) without the end-of-input option, `MoreBytes` means that **no byte so far is rejectable and nothing is complete**:
+    every shorter buffer (every prefix of `b`) also gives `MoreBytes` -/
+theorem tokparam_moreBytes_prefixes : type_of% @Sipsp.tokparam_moreBytes_prefixes := @Sipsp.tokparam_moreBytes_prefixes
+
+/-- [EXPORT C17] (3) **the loop of ParseAllURIParams stops with a verdict other than OK / MoreValues / EOH exactly when one of the
+    items does**: the items before it are parameters of the grammar reported with `MoreValues`; offset and verdict are
+    those of that item; the items before it — and only they — are counted and pushed with the type of their names -/
+theorem uriParamsLoop_stop_iff : type_of% @Sipsp.uriParamsLoop_stop_iff := @Sipsp.uriParamsLoop_stop_iff
+
+/-- [EXPORT C17] (3) the same for the loop of ParseAllURIHdrs -/
+theorem uriHdrsLoop_stop_iff : type_of% @Sipsp.uriHdrsLoop_stop_iff := @Sipsp.uriHdrsLoop_stop_iff
+
+/-- [EXPORT C17] (3) **ParseAllURIParams returns `BadChar` iff one of the items is rejected**: the items before it are parameters of
+    the grammar (separator ';' added by the wrapper), the error offset is that of the rejected item (`PVBad`: it points
+    at the first byte that cannot continue), N counts exactly the items before it, and the list object is the one an
+    accepted list of those items leaves (each pushed with the type of its name; N, Types, slots as in `uri_param_list`) -/
+theorem parseAllURIParams_badChar_iff : type_of% @Sipsp.parseAllURIParams_badChar_iff := @Sipsp.parseAllURIParams_badChar_iff
+
+/-- [EXPORT C17] (3) the same for ParseAllURIHdrs (separator '&') -/
+theorem parseAllURIHdrs_badChar_iff : type_of% @Sipsp.parseAllURIHdrs_badChar_iff := @Sipsp.parseAllURIHdrs_badChar_iff
+
+/-- [EXPORT C17] (3) **the complete list of verdicts of the wrappers** on a list object in its reset state: `OK`, `EOH`, `MoreBytes`,
+    `BadChar`; and the verdict and the offset are those of the first item that is not reported with `MoreValues` -/
+theorem uriParamsLoop_outcome : type_of% @Sipsp.uriParamsLoop_outcome := @Sipsp.uriParamsLoop_outcome
+
+/-- [EXPORT C17] (3) the same for the loop of ParseAllURIHdrs -/
+theorem uriHdrsLoop_outcome : type_of% @Sipsp.uriHdrsLoop_outcome := @Sipsp.uriHdrsLoop_outcome
+
+/-- [EXPORT C17] (3) ParseAllURIParams on a list object in its reset state returns `OK`, `EOH`, `MoreBytes` or `BadChar`, nothing else -/
+theorem parseAllURIParams_verdicts : type_of% @Sipsp.parseAllURIParams_verdicts := @Sipsp.parseAllURIParams_verdicts
+
+/-- [EXPORT C17] (3) ParseAllURIHdrs on a list object in its reset state returns `OK`, `EOH`, `MoreBytes` or `BadChar`, nothing else -/
+theorem parseAllURIHdrs_verdicts : type_of% @Sipsp.parseAllURIHdrs_verdicts := @Sipsp.parseAllURIHdrs_verdicts
+
+/-- [EXPORT C17] (4) a rejected text stays rejected, at the same byte, whatever is appended (no end-of-input option: that option is a
+    statement about where the input ends) — composition with C03 (`stable_tokparam`) -/
+theorem tokparam_badChar_append : type_of% @Sipsp.tokparam_badChar_append := @Sipsp.tokparam_badChar_append
+
+/-- [EXPORT C17] (4) **a rejection under every chunk schedule** — composition with C02 (`schedule_tokparam`): the complete buffer `B`
+    (the last of the growing prefixes) holds a text rejected at `p`; the chain of resumed calls, however the input was
+    cut, returns `BadChar` at `p` with the very object of the one-shot call -/
+theorem tokparam_badChar_any_schedule : type_of% @Sipsp.tokparam_badChar_any_schedule := @Sipsp.tokparam_badChar_any_schedule
+
+/-- [EXPORT C17] the same for every verdict of ParseAllURIParams: what ONE call on the complete buffer returns — offset, verdict,
+    number of values, list object — is what the chain of resumed calls returns (the numbers of values of the calls
+    added up), under every chunk schedule -/
+theorem uriparams_any_schedule : type_of% @Sipsp.uriparams_any_schedule := @Sipsp.uriparams_any_schedule
+
+/-- [EXPORT C17] the same for every verdict of ParseAllURIHdrs -/
+theorem urihdrs_any_schedule : type_of% @Sipsp.urihdrs_any_schedule := @Sipsp.urihdrs_any_schedule
+
+/-- [EXPORT C17] (4) **a rejected list under every chunk schedule and with appended bytes**: the complete buffer holds `tps` items of
+    the grammar followed by an item rejected at `o'`; however the input is cut, the chain of resumed ParseAllURIParams
+    calls returns `BadChar` at `o'`, the values counted over all calls add up to the number of items before the
+    rejected one, and the list object holds exactly those items -/
+theorem uriparams_badChar_any_schedule : type_of% @Sipsp.uriparams_badChar_any_schedule := @Sipsp.uriparams_badChar_any_schedule
+
+/-- [EXPORT C17] (4) the same for ParseAllURIHdrs -/
+theorem urihdrs_badChar_any_schedule : type_of% @Sipsp.urihdrs_badChar_any_schedule := @Sipsp.urihdrs_badChar_any_schedule
+
+/-- [EXPORT C17] (4) a rejected list stays rejected whatever is appended (C03: `stable_uriparams`) -/
+theorem uriparams_badChar_append : type_of% @Sipsp.uriparams_badChar_append := @Sipsp.uriparams_badChar_append
+
+/-- [EXPORT C17] (4) the same for ParseAllURIHdrs (C03: `stable_urihdrs`) -/
+theorem urihdrs_badChar_append : type_of% @Sipsp.urihdrs_badChar_append := @Sipsp.urihdrs_badChar_append
+
+/-- [EXPORT C17] **a complete item followed by one of the endings of the grammar is a parameter of the grammar** (`PSParam`; the
+    object reported is the one `PSParam` fixes) -/
+theorem PVDone.psParam : type_of% @Sipsp.PVDone.psParam := @Sipsp.PVDone.psParam
+
+/-- [EXPORT C17] (1) **the text before a rejected byte is a proper prefix of a parameter of the grammar**: if `BadChar` is reported at
+    `p`, there is a buffer `B` with the same bytes below `p` that holds a parameter of the grammar `PSParam` at `o`
+    (accepted with `EOH`); `B` is `b[0:p]` followed by at most five bytes (`a`, `"`, CR LF `x`) -/
+theorem tokparam_badChar_prefix_extends : type_of% @Sipsp.tokparam_badChar_prefix_extends := @Sipsp.tokparam_badChar_prefix_extends
+
+/-- [EXPORT C17] (1) **the rejected byte cannot continue ANY parameter**: if `BadChar` is reported at `p` on `b`, then EVERY buffer
+    with the same bytes up to and including `p` — whatever follows — is rejected with `BadChar` at `p` (so none of them is
+    accepted or suspended). With `tokparam_badChar_prefix_extends` (the bytes before `p` CAN be continued to a parameter):
+    the error offset is that of the first byte that cannot continue a parameter of the grammar. -/
+theorem tokparam_badChar_local : type_of% @Sipsp.tokparam_badChar_local := @Sipsp.tokparam_badChar_local
+
+/-- [EXPORT C17] (2) **a suspended text is a proper prefix of a parameter of the grammar** (no end-of-input option, start offset inside
+    the buffer): if the call returns `MoreBytes`, there are bytes `s` (at most six: a space, `a`, `"`, CR LF `x`) such that
+    `b ++ s` holds a parameter of the grammar `PSParam` at `o`, accepted with `EOH` -/
+theorem tokparam_moreBytes_extends : type_of% @Sipsp.tokparam_moreBytes_extends := @Sipsp.tokparam_moreBytes_extends
 
 end Sipsp.C17
